@@ -38,7 +38,12 @@ func runC02(c *Ctx) {
 			TTLsMs: []int{1, 3, 20, 1100}, CostMode: "one", DelayLevel: lab.Pick(rng, []float64{0.5, 1, 2}),
 			EndWith: "close", Stream: uint64(i),
 		}
-		o.Name = fmt.Sprintf("c02-nk%d-cap%d-buf%d-w%d-d%.1f", nk, o.Cfg.MaxCost, o.Cfg.SetBuf, o.Workers, o.DelayLevel)
+		if i%3 == 1 && nk >= 2 {
+			// keys colliding on the primary hash (different non-zero conflict hashes): a Del / overwrite / eviction aimed at
+			// one key must never release - or keep serving - the value of the other
+			o.Cfg.Collide = lab.Pick(rng, []int{1, 2})
+		}
+		o.Name = fmt.Sprintf("c02-nk%d-cap%d-buf%d-w%d-d%.1f-collide%d", nk, o.Cfg.MaxCost, o.Cfg.SetBuf, o.Workers, o.DelayLevel, o.Cfg.Collide)
 		o.OpsPerPhase = c.N(3000, 8000) / o.Workers
 		c.J.Case(o)
 		res := runStress(c, o)
